@@ -286,6 +286,11 @@ func FixedBufferCleaner(
 	return func(size int, offsets []int) int {
 		if size > max {
 			trim := size - target
+			// only force cleanup PAST the default, never short of it: a prefix every consumer has committed past
+			// is removed in the same pass (nothing re-checks the buffer until the next change)
+			if n := DefaultCleaner(size, offsets); n >= trim {
+				return n
+			}
 			if callback != nil {
 				callback(FixedBufferCleanerNotification{
 					Max:     max,
